@@ -67,12 +67,15 @@ type ServeOpts struct {
 func Serve(sockpath, dbpath string, opts ServeOpts) int {
 	logger.Println("pid is", syscall.Getpid())
 	logger.Println("going to listen", sockpath)
+	verifPause("daemon:before-listen", opts.Ready)
 	listener, err := net.Listen("unix", sockpath)
 	if err != nil {
 		logger.Printf("failed to listen on %s: %v", sockpath, err)
 		logger.Println("aborting")
+		verifPause("daemon:listen-failed", opts.Ready)
 		return 2
 	}
+	verifPause("daemon:listened", opts.Ready)
 
 	st, err := store.NewStore(dbpath)
 	if err != nil {
@@ -123,6 +126,7 @@ func Serve(sockpath, dbpath string, opts ServeOpts) int {
 		}
 	}
 
+	verifPause("daemon:serving", opts.Ready)
 	if opts.Ready != nil {
 		close(opts.Ready)
 	}
@@ -156,6 +160,7 @@ loop:
 		}
 	}
 
+	verifPause("daemon:before-remove-socket", opts.Ready)
 	err = os.Remove(sockpath)
 	if err != nil {
 		logger.Printf("failed to remove socket %s: %v", sockpath, err)
@@ -172,5 +177,7 @@ loop:
 	}
 	// Ensure that the listener goroutine has exited before returning
 	<-listenErrCh
+	verifDaemonExit(connCh)
+	verifPause("daemon:exited", opts.Ready)
 	return 0
 }
